@@ -20,10 +20,15 @@
 #endif
 
 /* reachability of a contract case: with -DVERIF_REACH the negated case becomes an ensures clause that must FAIL */
+/* usage: VERIF_REACH_DECL(f) before f's contract; VERIF_REACH_ENSURES(f, cond) inside it; VERIF_REACH_ON(f) in the
+ * harness that ENFORCES f.  Only that harness turns the clauses on, so a harness that merely REPLACES calls to f
+ * by its contract never gets the negated cases as assumptions. */
+#define VERIF_REACH_DECL(fn) int verif_reach_##fn;
+#define VERIF_REACH_ON(fn) (verif_reach_##fn = 1)
 #if defined(VERIF_CBMC) && defined(VERIF_REACH)
-#define VERIF_REACH_ENSURES(cond) __CPROVER_ensures(!(cond))
+#define VERIF_REACH_ENSURES(fn, cond) __CPROVER_ensures(!(cond) || !verif_reach_##fn)
 #else
-#define VERIF_REACH_ENSURES(cond)
+#define VERIF_REACH_ENSURES(fn, cond)
 #endif
 
 typedef int64_t CAmount;
